@@ -295,6 +295,23 @@ def handleC09 (fields : List String) : Verdict :=
         oracle := orElse o1 (orElse o2 (orElse o3 o4)),
         nontrivial := free.length < vars.length && !free.isEmpty }
     | _, _, _, _ => Verdict.badLine "unreadable free line"
+  | ["vfree", gen, answers] =>
+    -- `var_is_free` asked about every variable of the text: true exactly for the variables with a free occurrence
+    match parseFormula gen with
+    | some g =>
+      let specFree := sortNats (dedup (freeVarsSpec g))
+      let pairs := if answers.trimAscii.toString.isEmpty then [] else (answers.splitOn ",").map (fun s => s.splitOn "=")
+      let bad := pairs.find? (fun p => match p with
+        | [v, "1"] => match v.toNat? with | some v => !specFree.contains v | none => true
+        | [v, "0"] => match v.toNat? with | some v => specFree.contains v | none => true
+        | _ => true)
+      let mBad := pairs.find? (fun p => match p with
+        | [v, a] => match v.toNat? with | some v => (if varIsFree v g then "1" else "0") != a | none => true
+        | _ => true)
+      { modelOk := mBad.isNone, modelOut := "",
+        oracle := bad.map (fun p => s!"var_is_free answers {p} ; the variables with a free occurrence are {specFree}"),
+        nontrivial := !specFree.isEmpty }
+    | none => Verdict.badLine "unreadable vfree line"
   | _ => Verdict.badLine "unknown C09 line"
 
 end Driver
